@@ -364,7 +364,12 @@ func (s *ProofStructure) CommitmentsFromSecrets(g *gabikeys.PublicKey, m, mRando
 
 	bases := zkproof.NewBaseMerge(g, commit)
 
+	// The commitments C_i and the bound k are part of the statement that is proven: they go into the
+	// challenge along with the commitments of the proof, so that they are fixed before the
+	// challenge is known (cf. C_r, C_u and nu in the nonrevocation proof).
 	var contributions []*big.Int
+	contributions = append(contributions, commit.c...)
+	contributions = append(contributions, s.k)
 	contributions = s.mCorrect.CommitmentsFromSecrets(g, contributions, &bases, commit)
 	for i := range commit.d {
 		contributions = s.cRep[i].CommitmentsFromSecrets(g, contributions, &bases, commit)
@@ -443,6 +448,8 @@ func (s *ProofStructure) CommitmentsFromProof(g *gabikeys.PublicKey, p *Proof, c
 	bases := zkproof.NewBaseMerge(g, (*proof)(p))
 
 	var contributions []*big.Int
+	contributions = append(contributions, p.Cs...)
+	contributions = append(contributions, p.K)
 	contributions = s.mCorrect.CommitmentsFromProof(g, contributions, challenge, &bases, (*proof)(p))
 	for i := range s.cRep {
 		contributions = s.cRep[i].CommitmentsFromProof(g, contributions, challenge, &bases, (*proof)(p))
